@@ -219,6 +219,18 @@ def ensure_fixture_facts(repo=None):
                         shutil.rmtree(os.path.join(fp, x), ignore_errors=True)
             r = subprocess.run(['cargo', '+nightly', 'check', '--offline', '--lib'], cwd=d, env=env, stdout=subprocess.PIPE, stderr=subprocess.STDOUT, text=True)
             f = os.path.join(out_dir, FIXTURE_CRATE + '.facts.json')
+            if slot:
+                # scratch runs analyse a different copy of the repository every time: cargo keys the library's artifacts by its path, so they
+                # would pile up in the slot's target directory -- drop them (the external dependencies stay cached)
+                tdir = os.path.join(env['CARGO_TARGET_DIR'], 'debug')
+                for sub, pref in (('deps', ('libaffinitree-', 'affinitree-', 'libaff_macro_fixture-', 'aff_macro_fixture-')), ('.fingerprint', ('affinitree-', 'aff_macro_fixture-'))):
+                    dd = os.path.join(tdir, sub)
+                    if os.path.isdir(dd):
+                        for x in os.listdir(dd):
+                            if x.startswith(pref):
+                                px = os.path.join(dd, x)
+                                shutil.rmtree(px, ignore_errors=True) if os.path.isdir(px) else os.remove(px)
+                shutil.rmtree(os.path.join(tdir, 'incremental'), ignore_errors=True)
             if r.returncode != 0 or not os.path.exists(f):
                 raise BuildFailed(r.stdout[-3000:])
             shutil.move(f, cached)
